@@ -87,7 +87,12 @@ def drive(ctx):
     for zn in ctx.mine(["Europe/Paris", "America/New_York", "Australia/Lord_Howe", "America/Sao_Paulo", "Asia/Tehran", "Europe/London",
                         "America/Havana", "Pacific/Auckland"]):
         ovs = [t for t in zone_transitions(ctx, zn) if t[2] < t[1] and 0 < t[0] < 2 * 10 ** 9]
-        for (sec, b_, a_) in pick(rnd, ovs, 2 if q else 10):
+        # (a repeated hour on the first day of a month always among them: the compiled helper's conversion to UTC has to
+        # borrow across the month there)
+        import time as _time
+
+        first = [t for t in ovs if _time.gmtime(t[0] + t[2]).tm_mday == 1]
+        for (sec, b_, a_) in pick(rnd, ovs, 2 if q else 10) + first[-(1 if q else 4):]:
             for (d1, d2) in ((5, 425), (300, 7500), (-200, 100), (1000, 1000 + 86400 * 3)):
                 x = ctx.emit("in_tz", {"tz": {"n": zn, "fo": 0}}, [mk_dt(UTCZ, i3_to_wall(sec_to_i3(sec + d1, 0)), 0)], log=False)
                 y = mk_dt(UTCZ, i3_to_wall(sec_to_i3(sec + d2, 0)), 0)
